@@ -440,6 +440,11 @@ def t07_hmtx(run, fx):
 
 
 def check(run, fx, tier, floors=True):
+    if floors or any(b.path.endswith("cff::charstring::convert_cff2_to_cff") for b in fx.bodies):
+        # subsetting CFF2 to CFF re-emits every operator through From<VisitOp> for u8: the operator tables are part of "outlines are preserved"
+        import rules_C18
+        rules_C18.t18_ops(run, fx, floors)
+        rules_C18.t18_vop(run, fx, floors)
     if floors or any(callee_is(t, "cff::subset::rebuild_local_subr_indices") for b in fx.bodies for _, t in b.calls()):
         t07_subr(run, fx)
         t07_bias(run, fx)
